@@ -258,7 +258,7 @@ def regenerate():
     if lost:
         raise Untranslatable(f'kept the previous translation: {lost} (file changed: {changed})')
     return changed, {'definitions': sorted(info), 'validated': 'cached' if cached else f'Lean evaluation = the library on {len(validation_cases()[0])} '
-                     f'stacks (serialize: cell hash + state of the caller\'s values afterwards) and {len(validation_cases()[1])} cells (deserialize)'}
+                     f'stacks (VmStack.serialize: cell hash + length of the caller\'s list afterwards; VmStackValue.serialize: cell hash + full state of the value afterwards) and {len(validation_cases()[1])} cells (deserialize)'}
 
 
 # ---------------------------------------------------------------------------- structured inputs
@@ -339,7 +339,7 @@ def validation_cases():
             snap = V.canon_stack(vs)
         except Exception:
             continue
-        ser.append((f'ser {cx.dag_arg()} {toks}', 'err' if c is None else f'ok {c.hash.hex()} {snap}'))
+        ser.append((f'ser {cx.dag_arg()} {toks}', 'err' if c is None else f'ok {c.hash.hex()} {len(vs)}'))
         # the entry points below VmStack.serialize, on the first value
         if st:
             v = V.mk_lib(cx, st[0])
@@ -418,7 +418,7 @@ def genSer (dag st : String) : String :=
     | none => "bad-op"
     | some vs =>
       match VmStack_serialize mkCell FUEL vs with
-      | some r => s!"ok {r.1.cell.hashHex} {showStack r.2}"
+      | some r => s!"ok {r.1.cell.hashHex} {r.2.length}"
       | none => "err"
 def genSerV (dag st : String) : String :=
   match parseDag dag with
@@ -448,7 +448,7 @@ def modSer (dag st : String) : String :=
     | none => "bad-op"
     | some vs =>
       match serStack mkCell vs with
-      | some b => s!"ok {b.cell.hashHex} {showStack vs}"
+      | some b => s!"ok {b.cell.hashHex} {vs.length}"
       | none => "err"
 def modSerV (dag st : String) : String :=
   match parseDag dag with
